@@ -201,6 +201,61 @@ def run(tier):
                 ck.finding("R3.correctly-rounded-reader", "R3.number-provenance/%s" % f.parent, F.short_span(s[3]),
                            "`%s` builds a Number whose value comes neither from str::parse::<f64> nor from a single integer->float cast" % f.parent)
 
+    # R3c: a fixed-width integer parser never produces a script number.  `i64::from_str_radix` / `u64::from_str_radix` / `parse::<i64>()` fail on
+    # text that is a perfectly good number beyond 64 bits; whatever the caller substitutes (0, NaN) is wrong, and an integer accumulator over the
+    # digits overflows (a panic in debug builds, a wrapped value in release).  Wide text goes through the one reader with an overflow fall-back.
+    ck.rule("R3c.no-fixed-width-reader", "no script number (JsValue::Number / TokenKind::Number) is computed from a fixed-width integer parse or from a checked "
+                                         "integer multiply-add over digits", floor=0)
+    from c09 import ancestors
+    import loops as L
+    n3c = 0
+    for p3, f3 in sorted(fx.fns.items()):
+        if f3.derived or not f3.file.startswith(("src/lexer.rs", "src/value.rs", "src/interpreter")):
+            continue
+        if f3.file.endswith("builtins/date.rs"):
+            continue    # calendar fields: the format bounds them (a year that does not fit an i32 is not a date), the result is a time value, not the text's number
+        nums = [s3 for bl in f3.blocks for s3 in bl["s"] if s3[0] == "a" and s3[2][0] == "agg" and isinstance(s3[2][1], dict) and s3[2][1].get("v") == "Number"
+                and str(s3[2][1].get("p", "")).endswith(("JsValue", "TokenKind")) and s3[2][2] and s3[2][2][0][0] in ("c", "m")]
+        rets_f64 = fx.tys(f3.locals[0]) in ("f64", "std::option::Option<f64>")
+        if not nums and not rets_f64:
+            continue
+        srcs = set()
+        for s3 in nums:
+            srcs |= ancestors(f3, s3[2][2][0][1][0])
+        if rets_f64:
+            srcs |= ancestors(f3, 0)
+        top3 = f3.parent if f3.closure else f3.path
+        for bi, t in f3.calls():
+            d = t[1].get("d") or ""
+            m3 = re.search(r"core::num::<impl (i8|u8|i16|u16|i32|u32|i64|u64|isize|usize)>::from_str_radix$", d)
+            targs3 = [fx.tys(x) for x in t[1].get("targs", [])]
+            p_int = d.endswith(("str::<impl str>::parse", "JsString::parse")) and targs3 and re.match(r"^(i|u)(8|16|32|64|size)$", targs3[0])
+            if not (m3 or p_int) or t[3][1] or t[3][0] not in srcs:
+                continue
+            n3c += 1
+            ck.instance("R3c.no-fixed-width-reader", "%s: %s feeds a Number" % (f3.path, (m3.group(1) + "::from_str_radix") if m3 else "parse::<%s>" % targs3[0]), F.short_span(t[6]), ok=False)
+            ck.finding("R3c.no-fixed-width-reader", "R3c.no-fixed-width-reader/%s/%s" % (top3, m3.group(1) if m3 else targs3[0]), F.short_span(t[6]),
+                       "`%s` turns text into a number through a %s parse: digits that do not fit (`0xFFFFFFFFFFFFFFFF`, 20 decimal digits) make the parse fail and "
+                       "whatever is substituted (0, NaN) is not the number the text spells" % (f3.path, m3.group(1) if m3 else targs3[0]))
+        # integer accumulators: `acc = acc * radix + digit` on an integer inside a loop, flowing into the number
+        loop_blocks = set()
+        for hd, body in L.natural_loops(f3):
+            loop_blocks |= body
+        for bi, bl in enumerate(f3.blocks):
+            t = bl["t"]
+            if bi in loop_blocks and t[0] == "assert" and t[1].startswith("Overflow") and t[1].split(":")[1] == "Mul" and t[7] is not None and \
+                    re.match(r"^(i|u)(32|64|size)$", fx.tys(t[7])):
+                # the product feeds the number?
+                prod = {s3[1][0] for s3 in bl["s"] if s3[0] == "a" and s3[2][0] == "bin" and s3[2][1].startswith("Mul")}
+                if prod & srcs:
+                    n3c += 1
+                    ck.instance("R3c.no-fixed-width-reader", "%s: integer multiply-add accumulator feeds a Number" % f3.path, F.short_span(t[8]), ok=False)
+                    ck.finding("R3c.no-fixed-width-reader", "R3c.no-fixed-width-reader/%s/accumulator" % top3, F.short_span(t[8]),
+                               "`%s` accumulates the digits in a %s: `parseInt('99999999999999999999')` overflows (a panic in debug builds, a wrapped value in release)"
+                               % (f3.path, fx.tys(t[7])))
+    for g3 in fx.fns.values():
+        if not g3.derived and g3.file.startswith(("src/lexer.rs",)):
+            ck.instance("R3c.no-fixed-width-reader", g3.path, None, nontrivial=False)
     # R1b: anywhere else (constant folding in the compiler, natives) an integer shift / bitwise operation on a value that was cast
     # straight from an f64 is the same mistake in another place: the 32-bit wrap-around of the operator is lost (or done in 64 bits)
     ck.rule("R1b.no-cast-then-bitwise", "no integer shift / bitwise operation on a value cast directly from an f64 (operands come from ToInt32 / ToUint32)", floor=0)
